@@ -339,10 +339,12 @@ def main():
     lines, nviol, known_hit = [], 0, []
     bviol = list(bctx.violations) if bctx else []
     used_b = set()
+    known_obligs = []  # obligations that fail BECAUSE of a listed open finding: reported as KNOWN-FINDING, never counted as claimed / discharged
     for name, r in failed:
         ks = [k for k in known if finding_matches(k, prop, oblig=name)]
         if ks:
             known_hit.append((ks[0], name))
+            known_obligs.append(name)
             continue
         fn = name.split("/")[1]
         match = next((i for i, b in enumerate(bviol) if b["carrier"].split(".")[-1] == fn.split(".")[-1] or b["carrier"] == fn), None)
@@ -400,7 +402,8 @@ def main():
     # ---------------------------------------------------------------- evidence
     level = MANIFEST_LEVEL.get(prop, "proof")
     cov = dict(
-        obligations=nob,
+        obligations=nob - len(known_obligs),  # obligations claimed: all generated ones minus those that fail because of a listed open finding
+        obligations_failing_by_known_finding=sorted(known_obligs),
         discharged=len(discharged),
         checker_cmd=f"./check {prop} --tier {tier}  (pyvc VC generator over /repo AST -> z3 {z3.get_version_string()}, cvc5 1.0.3 for z3's unknowns)",
         trusted_base=sorted(assumptions) + sorted(f"assumed-contract:{c.key}" for c in R.values() if c.trusted and c.prop == prop),
